@@ -310,6 +310,7 @@ def window_segment(ops, base, seg, order):
     cls = H.digest(ref)
     classes = collections.Counter()
     changes = []
+    keys = set()
     suspects = []
     for pos, i in enumerate(seg):
         classes[cls] += 1
@@ -321,12 +322,15 @@ def window_segment(ops, base, seg, order):
             suspects.append((sig, pos, detail))
         now = state_class()
         if now != ref:
+            key = H.first_difference(ref, now)
+            keys.add(key.split(' ')[0])
             if len(changes) < 50:
-                changes.append((pos, H.first_difference(ref, now)))
+                changes.append((pos, key))
             ref = now
             cls = H.digest(now)
     full1 = H.digest(state_class(full=True))
-    return len(seg), suspects, dict(classes), changes, (full0, full1)
+    return (len(seg), suspects, dict(classes), changes, (full0, full1),
+            sorted(keys))
 
 
 def confirm_suspect(ops, base, seg, pos, order):
@@ -412,11 +416,13 @@ def run_histories(rep, name, ops, order, exact):
     results = pmap(work_windows, segs, nworkers=len(segs))
     k = len(results)
     flat = [results[i % k][i // k] for i in range(len(segs))]
-    for si, (c, sus, cl, ch, full) in enumerate(flat):
+    moved = set()
+    for si, (c, sus, cl, ch, full, keys) in enumerate(flat):
         wcalls += c
         classes.update(cl)
         changes.extend(ch[:3])
         fulls.update(full)
+        moved.update(keys)
         for sig, pos, detail in sus:
             e = suspects.setdefault(sig, [0, []])
             e[0] += 1
@@ -437,7 +443,17 @@ def run_histories(rep, name, ops, order, exact):
                 'window observation %s (%d cases, e.g. %s) does not reproduce '
                 'in a fresh process from any suffix of its worker\'s call '
                 'sequence' % (sig, cnt, cands[0][2]))
+    other = sorted(k for k in moved if k not in PLY_HOOKS)
+    if other:
+        # windows that start after such a change do not start in a state
+        # equivalent to a fresh process: say so, do not claim exhaustiveness
+        rep.cov['exhaustive'] = False
+        rep.cov['caps_hit'].append(
+            'histories-%s: global state left the pristine class in %s; the '
+            'de Bruijn windows executed after that are not equivalent to '
+            'runs in a fresh process' % (name, ', '.join(other[:5])))
     rep.space('histories-' + name, operations=n,
+              global_state_attributes_that_moved=sorted(moved),
               sequences_each_in_a_fresh_process=len(exact_prefixes),
               exact_calls=calls + n, window_len=order,
               windows=len(cyc), window_calls=wcalls,
@@ -844,6 +860,19 @@ def finish(rep, tier, states, nontriv, calls, phases):
         'a child forked from the parent that has imported the scratch copy '
         'and built the tables but parsed nothing else is equivalent to a '
         'fresh process',
+        'a de Bruijn window does not start in a fresh process but in one of '
+        'the reported global-state classes (fingerprint of all module '
+        'globals / class attributes of the calmjs.parse modules used by '
+        'parse() and of ply.lex / ply.yacc, taken after every call); on the '
+        'unchanged tree the classes differ only in ply.yacc._errok / _token '
+        '/ _restart (None after import, deleted after a p_error call that '
+        'returned, left set after a p_error call that raised), which '
+        'calmjs.parse never reads.  Sequences that do start in a fresh '
+        'process: every single call, the listed pairs (thorough: all pairs, '
+        'and all triples over a sub-pool)',
+        'forking a process per history costs 0.1-1 s CPU in this '
+        'environment (copy-on-write faults), hence the split into few '
+        'fork-isolated sequences and many in-process windows',
     ]
 
 
@@ -868,14 +897,23 @@ def replay(w):
     base = baselines(sorted(set(ops)))
     L = lib()
     if w.get('granularity') == 'line':
+        for op in ops:            # same warm-up as the exploring workers
+            observe_call(L, op)
         results, cnt, hit, events = S.one_preemption(
             bodies_for(L, ops), w['first'], w['preempt_before_line_event'],
             target_predicate())
         obs = observe_results(L, results)
     else:
         install_token_points(L)
-        obs = run_token_schedule(
-            L, ops, S.PrefixChooser(tuple(w['schedule'])))[1][0]
+        sched = list(w['schedule'])
+
+        def lenient(step, enabled, me):
+            # a schedule recorded on other code may not fit any more: follow
+            # it while it names an enabled thread
+            if step < len(sched) and sched[step] in enabled:
+                return sched[step]
+            return enabled[0]
+        obs = run_token_schedule(L, ops, lenient)[1][0]
     for i, op in enumerate(ops):
         if obs[i] != base[op]:
             res.append({
